@@ -6,7 +6,6 @@ import (
 	"encoding/json"
 	"errors"
 	"fmt"
-	"math"
 	"net/http"
 	"net/http/httptest"
 	"reflect"
@@ -48,7 +47,7 @@ func (c *recCache) Get(context.Context, string) ([]byte, error) {
 
 func (c *recCache) Set(_ context.Context, _ string, _ []byte, ttl time.Duration) error {
 	c.mu.Lock()
-	c.ttls = append(c.ttls, fmt.Sprintf("%ds", int64(math.Round(ttl.Seconds()))))
+	c.ttls = append(c.ttls, ttlLabel(ttl))
 	c.mu.Unlock()
 	return nil
 }
